@@ -12,6 +12,8 @@ def main():
     # the symbolic run interprets / natively executes the kernels' Python source
     os.environ["NUMBA_DISABLE_JIT"] = "1"
     os.environ.setdefault("CORANKCO_VERIF", "1")
+    import faulthandler, signal
+    faulthandler.register(signal.SIGUSR1, all_threads=True)
     from vf import harness
     mod = importlib.import_module("vf.checks." + a.pid.lower())
     sys.exit(harness.main_wrapper(a.pid, tier, seed, mod.run))
